@@ -520,6 +520,10 @@ pub enum ResultWithDeserializedMetadata {
 /// overflow the stack. Real schemas nest a handful of levels.
 const MAX_TYPE_NESTING_DEPTH: usize = 128;
 
+/// Upper bound on the number of tuple elements / UDT fields for which room is reserved
+/// before they are parsed.
+const MAX_PREALLOCATED_SUBTYPES: usize = 64;
+
 fn deser_type_generic<'frame, 'result, StrT: Into<Cow<'result, str>>>(
     buf: &mut &'frame [u8],
     read_string: fn(&mut &'frame [u8]) -> StdResult<StrT, LowLevelDeserializationError>,
@@ -600,9 +604,11 @@ fn deser_type_nested<'frame, 'result, StrT: Into<Cow<'result, str>>>(
                 .map_err(|err| CqlTypeParseError::UdtFieldsCountParseError(err.into()))?
                 .into();
 
-            // Each field takes at least 4 bytes (name length + type id).
+            // Each field takes at least 4 bytes (name length + type id). Types nest, and every
+            // level would reserve room for all the bytes that remain, so the reservation is
+            // also bounded by a constant; larger types simply grow the vector while parsing.
             let mut field_types: Vec<(Cow<'result, str>, ColumnType)> =
-                Vec::with_capacity(fields_size.min(buf.len() / 4));
+                Vec::with_capacity(fields_size.min(buf.len() / 4).min(MAX_PREALLOCATED_SUBTYPES));
 
             for _ in 0..fields_size {
                 let field_name =
@@ -625,8 +631,9 @@ fn deser_type_nested<'frame, 'result, StrT: Into<Cow<'result, str>>>(
             let len: usize = types::read_short(buf)
                 .map_err(|err| CqlTypeParseError::TupleLengthParseError(err.into()))?
                 .into();
-            // Each element type takes at least 2 bytes (type id).
-            let mut types = Vec::with_capacity(len.min(buf.len() / 2));
+            // Each element type takes at least 2 bytes (type id); see the UDT case above.
+            let mut types =
+                Vec::with_capacity(len.min(buf.len() / 2).min(MAX_PREALLOCATED_SUBTYPES));
             for _ in 0..len {
                 types.push(deser_type_nested(buf, read_string, read_custom_type, depth + 1)?);
             }
